@@ -30,7 +30,12 @@ def _rm(ct, direction, keys="['g']"):
 GROUPS = {
     "extend_expr": [f".extend({{'w': {e!r}}})" for e in ["x + 1", "x + 2", "1 + x", "x + y", "y + x", "x - y", "x * 1", "x + 1.0", "(x + 1)", "x.maximum(y)", "x.fmax(y)", "x.minimum(y)",
                                                           "-x", "x * -1", "x ** 2", "x * x", "(x > 1).if_else(x, y)", "(x > 1).where(x, y)", "x.is_null()", "x.is_bad()", "x %?% y", "y %?% x"]],
-    "extend_names": [".extend({'w': 'x + 1'})", ".extend({'v': 'x + 1'})", ".extend({'w': 'x + 1', 'v': 'y'})", ".extend({'v': 'y', 'w': 'x + 1'})"],
+    "extend_names": [".extend({'w': 'x + 1'})", ".extend({'v': 'x + 1'})", ".extend({'w': 'x + 1', 'v': 'y'})", ".extend({'v': 'y', 'w': 'x + 1'})",
+                     ".extend({'w': 'x + 1', 'y': 'x * 100'})", ".extend({'y': 'x * 100'})", ".extend({'w': 'x + 1', 'y': 'x * 100', 'g': 'g + 1'})", ".extend({'w': 'x + 1', 'y': 'y'})"],
+    "project_names": [".project({'s': 'x.sum()'}, group_by=['g'])", ".project({'s': 'x.sum()', 'y': 'y.max()'}, group_by=['g'])", ".project({'y': 'y.max()', 's': 'x.sum()'}, group_by=['g'])",
+                      ".project({'s': 'x.sum()', 'x': 'x.max()'}, group_by=['g'])"],
+    "join_pairs": [f".natural_join(b=TableDescription(table_name='q', column_names=['j1', 'j2', 'z']), on={on}, jointype='inner')"
+                   for on in ("[('x', 'j1'), ('y', 'j2')]", "[('x', 'j2'), ('y', 'j1')]", "[('y', 'j2'), ('x', 'j1')]", "[('x', 'j1')]")],
     "window": [f".extend({{'c': 'x.cumsum()'}}, partition_by={p}, order_by={o}, reverse={r})" for p in ("['g']", "[]", "['g', 'y']")
                for (o, r) in (("['y']", "[]"), ("['y']", "['y']"), ("['x']", "[]"), ("['y', 'x']", "[]"), ("['x', 'y']", "[]"), ("['y', 'x']", "['x']"))
                if not (p == "['g', 'y']" and "'y'" in o)],
